@@ -31,7 +31,7 @@ TIERS = {
 def gen_case(streams, tier):
     g = streams['gen']
     big = tier == 'thorough' and g.random() < 0.3
-    cfg = gen.make_cfg(nets=(3, 40) if big else (3, 22), rom_holes_prob=0.4)
+    cfg = gen.make_cfg(nets=(3, 40) if big else (3, 22), rom_holes_prob=0.4, dup_mem_name_prob=0.3)
     script = gen.gen_script(g, cfg)
     script, stage = gen.maybe_stage(g, script, 0.2, ['sim', 'fast', 'export', 'analysis', 'optimized_copy', 'copy', 'reset'])
     ncyc = streams['inputs'].randint(1, 12)
